@@ -52,11 +52,39 @@ def clip(i):
     return b["clips"][i]
 
 
+def _fl_nest(x):
+    if isinstance(x, (list, tuple)):
+        return [_fl_nest(v) for v in x]
+    return float(frac(x))
+
+
 def _geometry(g):
+    """a list of four rationals is a BoundingBox; a dict {"type", "coordinates"} is any geometry type"""
     from soundevent import data
     if g is None:
         return None
+    if isinstance(g, dict):
+        return getattr(data, g["type"])(coordinates=_fl_nest(g["coordinates"]))
     return data.BoundingBox(coordinates=[float(frac(x)) for x in g])
+
+
+def gkey(g):
+    """hashable key of an abstract geometry"""
+    if g is None:
+        return None
+    if isinstance(g, dict):
+        import json
+        return json.dumps(g, sort_keys=True)
+    return tuple(g)
+
+
+def geom_json(g):
+    """abstract geometry -> the model's JSON value ({"type", "coordinates"} with rational strings)"""
+    if g is None:
+        return None
+    if isinstance(g, dict):
+        return {"type": g["type"], "coordinates": g["coordinates"]}
+    return {"type": "BoundingBox", "coordinates": list(g)}
 
 
 def build(inp):
@@ -66,7 +94,7 @@ def build(inp):
     ses = {}
 
     def sound_event(ev):
-        key = (ev["id"], None if ev["geom"] is None else tuple(ev["geom"]))
+        key = (ev["id"], gkey(ev["geom"]))
         if key not in ses:
             ses[key] = data.SoundEvent(recording=rec, geometry=_geometry(ev["geom"]))
         return ses[key]
@@ -165,12 +193,13 @@ def _matcher():
 def matcher_answer(pred_events, ann_events):
     """the real matcher on the filtered geometry lists, as the code calls it"""
     match_geometries = _matcher()
-    key = (tuple(tuple(e["geom"]) for e in pred_events if e["geom"] is not None),
-           tuple(tuple(e["geom"]) for e in ann_events if e["geom"] is not None))
+    sg = [e["geom"] for e in pred_events if e["geom"] is not None]
+    tg = [e["geom"] for e in ann_events if e["geom"] is not None]
+    key = (tuple(gkey(g) for g in sg), tuple(gkey(g) for g in tg))
     if key in _MATCH_CACHE:
         return copy.deepcopy(_MATCH_CACHE[key])
-    src = [_geometry(list(g)) for g in key[0]]
-    tgt = [_geometry(list(g)) for g in key[1]]
+    src = [_geometry(g) for g in sg]
+    tgt = [_geometry(g) for g in tg]
     out = []
     for s, t, a in match_geometries(source=src, target=tgt):
         out.append([None if s is None else int(s), None if t is None else int(t), _num(a)])
@@ -278,7 +307,7 @@ def match_key(m):
 
 
 def evaluation_diff(impl, model, score_mode="round-once", clip_score_mode="round-once", clip_order=True,
-                    affinity=True, metrics=True):
+                    affinity=True, metrics=True, affinity_mode="exact", affinity_what="the one the matcher reported"):
     """None when the two canonical evaluations agree on everything C08/C09 pin"""
     d = features_diff("evaluation", impl["metrics"], model["metrics"]) if metrics else None
     if d:
@@ -306,8 +335,8 @@ def evaluation_diff(impl, model, score_mode="round-once", clip_score_mode="round
             return f"matches do not pair the sound events as expected: {[match_key(m) for m in am]} instead of {[match_key(m) for m in bm]} ({w})"
         for x, y in zip(am, bm):
             wm = f"{w} match {match_key(x)}"
-            if affinity and not num_eq(x["affinity"], y["affinity"], "exact"):
-                return f"match affinity is not the one the matcher reported: {_fl(x['affinity'])} instead of {_fl(y['affinity'])} ({wm})"
+            if affinity and not num_eq(x["affinity"], y["affinity"], affinity_mode):
+                return f"match affinity is not {affinity_what}: {_fl(x['affinity'])} instead of {_fl(y['affinity'])} ({wm})"
             if not num_eq(x["score"], y["score"], "exact"):
                 return f"match score is not the probability of the true class: {_fl(x['score'])} instead of {_fl(y['score'])} ({wm})"
             d = features_diff(wm, x["metrics"], y["metrics"]) if metrics else None
